@@ -99,6 +99,7 @@ type proxyCfg struct {
 	IdPAdvertisedPKCE     []string      // code_challenge_methods_supported of the discovery document (nil = S256 and plain)
 	RedisRealTime         bool          // miniredis TTLs run down in real time (they are otherwise frozen): locks and entries really expire
 	RedisReadTimeout      time.Duration // read_timeout of the Redis client (0 = the client's default of 3 s)
+	PreferEmailToUser     bool          // --prefer-email-to-user (legacy): htpasswd sessions get their user name as e-mail address
 	RelativeRedirectURL   bool          // --relative-redirect-url: the OAuth redirect URI is sent as a path
 	ShowDebugOnError      bool          // --show-debug-on-error: error pages show the underlying error text
 	RequestLoggingFormat  string        // --request-logging-format ("" = default)
@@ -229,6 +230,7 @@ func newEnv(c *suiteCtx, cfg proxyCfg) (*testEnv, error) {
 		}
 	}
 	o.Server.BindAddress = cfg.BindAddress
+	o.LegacyPreferEmailToUser = cfg.PreferEmailToUser
 	o.RelativeRedirectURL = cfg.RelativeRedirectURL
 	o.Templates.Debug = cfg.ShowDebugOnError
 	if cfg.RequestLoggingFormat != "" {
